@@ -56,6 +56,14 @@ pub fn source(case: &str) -> String {
       format!("{}{}", defs, expr)
     }
     _ => {
+      if f[1] == "chain" {
+        // `T[[i j …]][[m m …]]`: the second selection is applied to the table the first one returns, not to a variable
+        let (a, b) = f[3].split_once('|').unwrap();
+        let t = table_opnd(&mut defs, "ta", f[2], if form(0) == 'l' { 'v' } else { form(0) });
+        let second = format!("[{}]", b.replace(',', " "));
+        let second = match form(1) { 'v' | 'm' if forms.len() > 1 => { defs.push_str(&format!("{}ix := {}\n", if form(1) == 'm' { "~" } else { "" }, second)); "ix".to_string() } _ => second };
+        return format!("{}{}[[{}]][{}]", defs, t, a.replace(',', " "), second);
+      }
       let ix = match f[1] {
         "rec" => f[3].to_string(),
         "vec" => format!("[{}]", f[3].replace(',', " ")),
@@ -143,6 +151,22 @@ pub fn generate(seed: u64, thorough: bool, sink: &mut Sink) -> Vec<String> {
              let m: Vec<String> = (0..len).map(|_| rng.chance(1, 2).to_string()).collect();
              cases.push(format!("sel\tmask\t{}\t{}", t, m.join(","))); sink.hit("select:mask"); }
     }
+  }
+  // chained selection: an index vector (at least two rows, any order, repeats) and then a logical mask or another index
+  // vector on the table that selection returns; the mask has one flag per selected row, or one too few / too many
+  for _ in 0..n / 6 {
+    let ncols = 1 + rng.below(3) as usize;
+    let cols: Vec<(String, String, bool)> = (0..ncols).map(|i| (["k", "a", "c"][i].to_string(), rng.pick(&KINDS5).to_string(), false)).collect();
+    let mut t = gen_table(&mut rng, &cols, max_rows);
+    while t.ends_with('|') { t = gen_table(&mut rng, &cols, max_rows); }
+    let nrows = t.split_once('|').unwrap().1.split(';').count();
+    let k = 2 + rng.below(3) as usize;
+    let first: Vec<String> = (0..k).map(|_| (1 + rng.below(nrows as u64)).to_string()).collect();
+    let second: Vec<String> = if rng.chance(2, 3) {
+      let len = match rng.below(6) { 0 => k + 1, 1 => k - 1, _ => k }.max(2);
+      (0..len).map(|_| rng.chance(1, 2).to_string()).collect()
+    } else { let k2 = 2 + rng.below(2) as usize; (0..k2).map(|_| { let over = if rng.chance(1, 8) { 1 } else { 0 }; (1 + rng.below(k as u64 + over)).to_string() }).collect() };
+    cases.push(format!("sel\tchain\t{}\t{}|{}", t, first.join(","), second.join(","))); sink.hit("select:chained");
   }
   // how the tables and the index are written
   let mut frng = Rng::new(seed ^ 0xc18f);
